@@ -241,7 +241,7 @@ func c14HTTP(c *Ctx, ix *PkgIndex, m otlpMod) {
 					return constant.MakeBool(okv), true
 				}
 				if be, ok := e.(*ast.BinaryExpr); ok && isNilIdent(info, be.Y) {
-					if v, isV := objOf(info, be.X).(*types.Var); isV && v.Name() == "err" {
+					if isErrVar(info, be.X) {
 						return constant.MakeBool(be.Op == token.NEQ), true
 					}
 				}
@@ -434,8 +434,7 @@ func c14GRPC(c *Ctx, ix *PkgIndex, m otlpMod) {
 				// dominated by the RetryInfo type assertion ok
 				d, _ := tg.DominatedByEdges(x, func(e *GEdge) bool {
 					return edgeImplies(e, func(cnd ast.Expr, pol int) bool {
-						v, isV := objOf(info, cnd).(*types.Var)
-						return isV && pol > 0 && v.Name() == "ok"
+						return pol > 0 && isBoolVar(info, cnd)
 					})
 				})
 				if !d {
